@@ -19,6 +19,9 @@ pub struct MigCfg {
     pub scale_in: bool,
     pub ttl_keys: bool,
     pub directed_pttl: bool,
+    /// directed schedule: one pull-path RESTORE is held back until the migration is committed, the new
+    /// metadata is installed and the key has been deleted through the new owner
+    pub directed_stale: bool,
     pub clients: usize,
     pub ops_per_client: usize,
     pub policy: u8, // 0 random, 1 prefer migration traffic, 2 prefer client traffic, 3 LIFO
@@ -37,7 +40,13 @@ fn parse_moved(r: &RespVec) -> Option<String> {
 }
 
 /// the deterministic gate: releases one pending stand-in command whenever everything else is idle
-async fn gate_loop(net: Net, seed: u64, policy: u8, stop: Arc<AtomicBool>) {
+pub struct StaleCtl {
+    pub key: parking_lot::Mutex<Vec<u8>>,
+    pub captured: AtomicBool,
+    pub release: AtomicBool,
+}
+
+async fn gate_loop(net: Net, seed: u64, policy: u8, stop: Arc<AtomicBool>, stale: Option<Arc<StaleCtl>>) {
     let mut rng = StdRng::seed_from_u64(seed);
     loop {
         if stop.load(Ordering::SeqCst) {
@@ -56,6 +65,42 @@ async fn gate_loop(net: Net, seed: u64, policy: u8, stop: Arc<AtomicBool>) {
         }
         // quiescence: 1ns of virtual time elapses only when every other task is blocked
         tokio::time::sleep(Duration::from_nanos(1)).await;
+        if let Some(ctl) = &stale {
+            // the directed schedule: hold the pull path's RESTORE of the chosen key (it comes over a proxy's
+            // backend connection, the scan's comes from a client) and hold SCAN until such a RESTORE is held
+            let key = ctl.key.lock().clone();
+            let chosen = {
+                let mut pend = net.inner.pending.lock();
+                let is_pull_restore = |p: &crate::simnet::Pending| -> bool {
+                    String::from_utf8_lossy(&p.cmd[0]).to_uppercase() == "RESTORE" && p.via.starts_with("conn:") && p.cmd.get(1) == Some(&key)
+                };
+                if pend.iter().any(|p| is_pull_restore(p)) {
+                    ctl.captured.store(true, Ordering::SeqCst);
+                }
+                let held = |p: &crate::simnet::Pending| -> bool {
+                    if is_pull_restore(p) {
+                        return !ctl.release.load(Ordering::SeqCst);
+                    }
+                    if String::from_utf8_lossy(&p.cmd[0]).to_uppercase() == "SCAN" {
+                        return !ctl.captured.load(Ordering::SeqCst);
+                    }
+                    false
+                };
+                let free: Vec<usize> = (0..pend.len()).filter(|i| !held(&pend[*i])).collect();
+                if free.is_empty() {
+                    None
+                } else {
+                    Some(pend.remove(free[rng.gen_range(0..free.len())]))
+                }
+            };
+            match chosen {
+                Some(c) => {
+                    let _ = c.release.send(());
+                }
+                None => tokio::time::sleep(Duration::from_micros(200)).await,
+            }
+            continue;
+        }
         let chosen = {
             let mut pend = net.inner.pending.lock();
             if pend.is_empty() {
@@ -119,7 +164,7 @@ pub async fn run_one(cfg: &MigCfg) -> Vec<Value> {
     };
     let net = w.net.clone();
     let mut head = vec![json!({"kind": "reset", "seed": cfg.seed, "conn_num": cfg.conn_num, "scale_in": cfg.scale_in, "policy": cfg.policy,
-        "ttl_keys": cfg.ttl_keys, "directed_pttl": cfg.directed_pttl})];
+        "ttl_keys": cfg.ttl_keys, "directed_pttl": cfg.directed_pttl, "directed_stale": cfg.directed_stale})];
     let mut w = w;
     macro_rules! op {
         ($o:expr) => {{
@@ -236,9 +281,18 @@ pub async fn run_one(cfg: &MigCfg) -> Vec<Value> {
     // from here on every stand-in command passes the gate
     let stop = Arc::new(AtomicBool::new(false));
     net.inner.gated.store(true, Ordering::SeqCst);
-    let gate = tokio::spawn(gate_loop(net.clone(), cfg.seed ^ 0x5eed, cfg.policy, stop.clone()));
+    let stale_ctl = if cfg.directed_stale {
+        let k = keys.iter().enumerate().find(|(i, k)| k.1 && i % 4 != 3).map(|(_, k)| k.0.clone()).unwrap_or_default();
+        Some(Arc::new(StaleCtl { key: parking_lot::Mutex::new(k.into_bytes()), captured: AtomicBool::new(false), release: AtomicBool::new(false) }))
+    } else {
+        None
+    };
+    let gate = tokio::spawn(gate_loop(net.clone(), cfg.seed ^ 0x5eed, cfg.policy, stop.clone(), stale_ctl.clone()));
     // deliver the migration metadata: tasks start
     w.sync_round("coord1").await;
+    if let Some(ctl) = &stale_ctl {
+        return run_stale(cfg, w, net, head, proxies, ctl.clone(), stop, gate).await;
+    }
     // clients
     let done = Arc::new(AtomicUsize::new(0));
     let mut handles = vec![];
@@ -310,6 +364,81 @@ pub async fn run_one(cfg: &MigCfg) -> Vec<Value> {
     out
 }
 
+#[allow(clippy::too_many_arguments)]
+async fn run_stale(cfg: &MigCfg, mut w: ClusterWorld, net: Net, head: Vec<Value>, proxies: Vec<String>, ctl: Arc<StaleCtl>, stop: Arc<AtomicBool>,
+                   gate: tokio::task::JoinHandle<()>) -> Vec<Value> {
+    let key = ctl.key.lock().clone();
+    let ks = String::from_utf8_lossy(&key).to_string();
+    // readers: GET the key again and again (each in its own task) until one of them is inside the pull path
+    // with its RESTORE held by the gate
+    let mut readers = vec![];
+    let mut n = 0;
+    while !ctl.captured.load(Ordering::SeqCst) && n < 400 {
+        let net2 = net.clone();
+        let proxies2 = proxies.clone();
+        let key2 = key.clone();
+        let ks2 = ks.clone();
+        let c = 100 + n;
+        readers.push(tokio::spawn(async move {
+            net2.event(json!({"kind": "inv", "client": c, "op": "GET", "key": ks2, "arg": "", "start": proxies2[c % proxies2.len()]}));
+            let (r, redirects) = client_op(&net2, &proxies2, c, vec![b"GET".to_vec(), key2]).await;
+            net2.event(json!({"kind": "resp", "client": c, "op": "GET", "key": ks2, "result": reply_val(&r), "redirects": redirects}));
+        }));
+        n += 1;
+        tokio::time::sleep(Duration::from_millis(2)).await;
+        if n % 5 == 0 {
+            w.migration_round("coord1").await;
+        }
+    }
+    let captured = ctl.captured.load(Ordering::SeqCst);
+    // let the migration finish, be committed, and the new metadata be installed
+    let mut committed = false;
+    for _ in 0..400 {
+        tokio::time::sleep(Duration::from_millis(20)).await;
+        w.migration_round("coord1").await;
+        w.sync_round("coord1").await;
+        let raw = w.broker.raw_store().await;
+        let migrating = raw["clusters"]["c1"]["chunks"].as_array().map(|chs| chs.iter().any(|ch| ch["migrating_slots"].as_array().map(|a| a.iter().any(|h| h.as_array().map(|x| !x.is_empty()).unwrap_or(false))).unwrap_or(false))).unwrap_or(false);
+        if !migrating {
+            committed = true;
+            break;
+        }
+    }
+    w.sync_round("coord1").await;
+    net.event(json!({"kind": "note", "what": "stale", "captured": captured, "committed": committed}));
+    // the key is deleted through the new owner, and read back
+    for (c, name) in [(1usize, "DEL"), (1, "GET")] {
+        net.event(json!({"kind": "inv", "client": c, "op": name, "key": ks, "arg": "", "start": proxies[0]}));
+        let (r, redirects) = client_op(&net, &proxies, 0, vec![name.as_bytes().to_vec(), key.clone()]).await;
+        net.event(json!({"kind": "resp", "client": c, "op": name, "key": ks, "result": reply_val(&r), "redirects": redirects}));
+    }
+    // now the delayed RESTORE arrives
+    ctl.release.store(true, Ordering::SeqCst);
+    for h in readers {
+        let _ = tokio::time::timeout(Duration::from_secs(100), h).await;
+    }
+    for _ in 0..20 {
+        tokio::time::sleep(Duration::from_millis(10)).await;
+    }
+    net.event(json!({"kind": "inv", "client": 1, "op": "GET", "key": ks, "arg": "", "start": proxies[0]}));
+    let (r, redirects) = client_op(&net, &proxies, 0, vec![b"GET".to_vec(), key.clone()]).await;
+    net.event(json!({"kind": "resp", "client": 1, "op": "GET", "key": ks, "result": reply_val(&r), "redirects": redirects}));
+    stop.store(true, Ordering::SeqCst);
+    net.inner.gated.store(false, Ordering::SeqCst);
+    net.inner.pending_notify.notify_one();
+    let _ = tokio::time::timeout(Duration::from_secs(10), gate).await;
+    let mut finals = vec![];
+    let nodes: Vec<String> = net.inner.redis.lock().keys().cloned().collect();
+    for n in nodes {
+        finals.push(json!({"node": n, "data": net.redis_snapshot(&n)}));
+    }
+    net.event(json!({"kind": "final", "directed": cfg.directed_pttl, "committed": committed, "clients_done": 1, "nodes": finals}));
+    let mut out = head;
+    out.extend(net.take_log());
+    annotate_restores(&mut out);
+    out
+}
+
 /// Attach to every RESTORE event the PTTL reply that the source gave for the key (exact integer
 /// comparison is done here with i128 because TLC integers are 32-bit).
 fn annotate_restores(log: &mut [Value]) {
@@ -351,16 +480,17 @@ fn annotate_restores(log: &mut [Value]) {
     }
 }
 
-pub fn run_many<W: Write>(out: &mut W, count: u64, seed: u64, directed: bool) {
+pub fn run_many<W: Write>(out: &mut W, count: u64, seed: u64, directed: bool, stale: bool) {
     let rt = tokio::runtime::Builder::new_current_thread().enable_all().start_paused(true).build().expect("rt");
     for i in 0..count {
         let s = seed.wrapping_mul(1_000_003).wrapping_add(i);
         let cfg = MigCfg {
             seed: s,
             conn_num: 1 + (i % 2) as usize,
-            scale_in: i % 5 == 4,
+            scale_in: i % 5 == 4 && !stale,
             ttl_keys: i % 3 == 1 || directed,
             directed_pttl: directed,
+            directed_stale: stale,
             clients: if directed { 1 } else { 2 + (i % 2) as usize },
             ops_per_client: if directed { 3 } else { 5 },
             policy: (i % 4) as u8,
